@@ -666,10 +666,21 @@ package table
 //@   loop 0 exit [C07.li.final+C05] batchCmd.LeaderIndex == nil && len(batchCmd.Batch) == 0
 //@   loop 0 invariant [C07.li.track] batchCmd.LeaderIndex == cmd.LeaderIndex || (batchCmd.LeaderIndex == nil && hasLI(m.nh.lastCmd) == (cmd.LeaderIndex != nil) && (cmd.LeaderIndex != nil ==> liVal(m.nh.lastCmd) == *cmd.LeaderIndex))
 
-//@ func (*Manager).waitForLeader
+// waitForLeader polls the leader of THAT shard (that a nil result implies an observed leader needs "a context whose Done channel fired has an error", which the context model does not state)
+//@ ghostfield any.leaderOf map[uint64]Bool
+//@ func dragonboat.(*NodeHost).GetLeaderID
 //@   assumed
-//@   requires m != nil
-//@   modifies nothing
+//@   params nh, shardID
+//@   results lid, term, ok, err
+//@   ensures ok ==> nh.leaderOf[shardID]
+//@   ensures forall k uint64 :: old(nh.leaderOf[k]) ==> nh.leaderOf[k]
+//@   modifies nh.leaderOf
+//@ func (*Manager).waitForLeader
+//@   maypanic
+//@   requires m != nil && m.nh != nil
+//@   before dragonboat.(*NodeHost).GetLeaderID assert [C07.wait.shard] shardID == clusterID
+//@   modifies m.nh.leaderOf
+//@   loop 0 invariant m.nh == old(m.nh) && m.nh != nil && ctx != nil && t != nil
 
 // Restore: the stream is loaded into a shard with a fresh id drawn from the id sequence (never the
 // shard the table currently points at), and only after the load succeeded is the table switched to
@@ -684,7 +695,7 @@ package table
 //@   before (*Manager).readIntoTable assert [C07.switch.fresh] id == recoveryID && recoveryID == parseU(m.store.wVal[seqKey]) && m.store.nwk[seqKey] == old(m.store.nwk[seqKey]) + 1
 //@   ensures [C07.switch.cas] err == nil ==> noSlash(name) && !m.store.wDel[tkey(name)] && m.store.wVer[tkey(name)] == m.store.rPair[tkey(name)].Ver && m.store.rHas[tkey(name)] && tableOf(bytesOf(m.store.wVal[tkey(name)])).ClusterID == parseU(m.store.wVal[seqKey]) && tableOf(bytesOf(m.store.wVal[tkey(name)])).RecoverID == 0 && tableOf(bytesOf(m.store.wVal[tkey(name)])).Name == tableOf(bytesOf(m.store.rPair[tkey(name)].Value)).Name
 //@   ensures [C07.switch.all] err == nil ==> m.nh.nelem - old(m.nh.nelem) == reader.nrec - old(reader.nrec)
-//@   modifies m.store.rHas, m.store.rPair, m.store.nwk, m.store.wVal, m.store.wVer, m.store.wDel, m.store.wPrevHas, m.store.wPrev, reader.nrec, m.nh.lastRes, m.nh.lastErr, m.nh.lastCmd, m.nh.nelem, m.nh.nseq
+//@   modifies m.store.rHas, m.store.rPair, m.store.nwk, m.store.wVal, m.store.wVer, m.store.wDel, m.store.wPrevHas, m.store.wPrev, reader.nrec, m.nh.lastRes, m.nh.lastErr, m.nh.lastCmd, m.nh.nelem, m.nh.nseq, m.nh.leaderOf
 
 // ---------------------------------------------------------------- read path selection (C10)
 
@@ -739,3 +750,14 @@ package table
 //@   ensures [C09.iter.req] len(req.Key) <= 1024 && len(req.RangeEnd) <= 1024 ==> typeIs(t.nh.lastReq, fsm.IteratorRequest) && asType(t.nh.lastReq, fsm.IteratorRequest).RangeOp != nil && sameSlice(asType(t.nh.lastReq, fsm.IteratorRequest).RangeOp.Key, req.Key) && sameSlice(asType(t.nh.lastReq, fsm.IteratorRequest).RangeOp.RangeEnd, req.RangeEnd) && asType(t.nh.lastReq, fsm.IteratorRequest).RangeOp.Limit == req.Limit && asType(t.nh.lastReq, fsm.IteratorRequest).RangeOp.KeysOnly == req.KeysOnly && asType(t.nh.lastReq, fsm.IteratorRequest).RangeOp.CountOnly == req.CountOnly      // the streamed read asks the state machine for exactly what the caller asked
 //@   ensures [C10.iter.path] len(req.Key) <= 1024 && len(req.RangeEnd) <= 1024 ==> (req.Linearizable ==> t.nh.nsync == old(t.nh.nsync) + 1 && t.nh.nstale == old(t.nh.nstale)) && (!req.Linearizable ==> t.nh.nstale == old(t.nh.nstale) + 1 && t.nh.nsync == old(t.nh.nsync))
 //@   modifies t.nh.nsync, t.nh.nstale, t.nh.lastReq
+
+// ---------------------------------------------------------------- constructor (C13, C14, C15)
+
+// NewManager: the manager works on the node host, the metadata store and the configuration it was given
+//@ import cpebble "github.com/cockroachdb/pebble"
+//@ import runtime "runtime"
+//@ trustframe "github.com/cockroachdb/pebble" "runtime"
+//@ func NewManager
+//@   maypanic
+//@   ensures [C14.manager.fields+C13+C15] result != nil && fresh(result) && result.nh == nh && result.store == store && result.cfg.NodeID == cfg.NodeID && result.members == members && result.closed != nil && !chanClosed(result.closed) && result.log != nil && result.reconcileInterval > 0
+//@   modifies nothing
